@@ -1,7 +1,8 @@
 """X-cli_cp driver: rows of spec/frontends/GenCliCp.tla replayed on the real `tahoe cp` (allmydata.scripts.tahoe_cp.Copier).
 
-Per row: a fresh local directory tree and a fresh grid (harness/webgrid.py: the real web API -- Root inside the real
-WebishServer on a real _Client with two real storage servers, on the virtual reactor) holding the row's world; the command
+Per row: a fresh local directory tree and the grid tree of the row's world (harness/webgrid.py: the real web API -- Root
+inside the real WebishServer on a real _Client with two real storage servers, on the virtual reactor; built once per process
+through the web API, then for every row the share files of that moment are put back and a fresh gateway is started); the command
 line is rendered from the row's abstract arguments; the real Copier runs with allmydata.scripts.tahoe_cp.do_http (the
 blocking http.client call of the CLI) rebound to a small synchronous shim: the request is issued on the WebGrid, the
 virtual reactor is settled, and an object with .status / .reason / .read() / .getheader() is returned.  Afterwards the
@@ -21,7 +22,7 @@ import argparse, hashlib, io, json, os, shutil, sys, tempfile, traceback
 from urllib.parse import urlsplit
 
 from webgrid import WebGrid, q as quote
-from grid import Hang
+from grid import Grid, Hang
 import allmydata.scripts.tahoe_cp as tahoe_cp
 from allmydata import uri as uri_mod
 
@@ -84,9 +85,74 @@ class Resp:
         raise io.UnsupportedOperation("seek")
 
 
+class GridBase:
+    """The grid tree of one world, built once per process through the web API; every row gets the share files of that
+    moment back (and the RSA key pool at its position of that moment) and a fresh gateway (new _Client, empty node cache)."""
+    def __init__(self, world):
+        self.grid = Grid(num_servers=2, k=1, n=2, happy=1, max_segment_size=64, seed=0)
+        self.nclients = 0
+        self.w = self.gateway()
+        self.caps, self.isdir, self.immcap, self.mut, self.content = {}, {}, {}, {}, {}
+        self.rootcap = self.must(self.w.request("POST", "/uri?t=mkdir"), "mkdir root")
+        base = "/uri/" + quote(self.rootcap)
+        self.caps[""] = self.rootcap
+        for e in sorted(world["G0"], key=lambda e: e["p"].count("/")):
+            url = base + "/" + "/".join(quote(n) for n in names_of(e["p"]))
+            if e["k"] == "dir":
+                cap = self.must(self.w.request("POST", url + "?t=mkdir"), "mkdir " + e["p"])
+            elif e["mu"]:
+                fmt = "MDMF" if e["o"].endswith("2") else "SDMF"
+                cap = self.must(self.w.request("PUT", url + "?format=" + fmt, body=content_bytes(e["c"])), "put mutable " + e["p"])
+                u = uri_mod.from_string(cap.encode())
+                self.mut[u.get_storage_index()] = e["o"]
+                self.content[u.get_readonly().to_string()] = "cap:" + e["o"]       # --caps-only writes the read-cap
+            else:
+                cap = self.must(self.w.request("PUT", url, body=content_bytes(e["c"])), "put " + e["p"])
+                self.content[cap.encode()] = "cap:" + e["c"]
+                self.immcap[cap] = e["c"]       # an immutable cap determines the contents
+            self.caps[e["p"]] = cap
+            self.isdir[e["p"]] = e["k"] == "dir"
+        self.backup = os.path.join(self.grid.basedir, "backup")
+        for sname, srv in self.grid.servers.items():
+            shutil.copytree(srv.ss.sharedir, os.path.join(self.backup, sname))
+        self.keypos = self.grid.keypool.i
+        self.dirty = False
+
+    def must(self, r, what):
+        if r.code not in (200, 201):
+            raise RuntimeError("setup: %s -> %d %r" % (what, r.code, r.body[:200]))
+        return r.body.decode().strip()
+
+    def gateway(self):
+        w = WebGrid(grid=self.grid, client_index=self.nclients)
+        self.nclients += 1
+        # the grid's pre-generated RSA keys instead of a fresh 2048-bit key per mutable object
+        w.client._key_generator = self.grid.keypool
+        w.client.nodemaker.key_generator = self.grid.keypool
+        return w
+
+    def fresh(self):
+        if self.dirty:
+            try:
+                self.w.client.stopService()
+            except Exception:
+                pass
+            for sname, srv in self.grid.servers.items():
+                shutil.rmtree(srv.ss.sharedir)
+                shutil.copytree(os.path.join(self.backup, sname), srv.ss.sharedir)
+            self.grid.pending = []
+            self.grid.keypool.i = self.keypos
+            self.w = self.gateway()
+        self.dirty = True
+        return self.w
+
+
+GRIDS = {}
+
+
 class Case:
-    def __init__(self, base, world, case):
-        self.world, self.case = world, case
+    def __init__(self, base, wname, world, case):
+        self.wname, self.world, self.case = wname, world, case
         self.base = tempfile.mkdtemp(dir=base)
         self.root = os.path.join(self.base, "root")
         os.mkdir(self.root)
@@ -94,10 +160,7 @@ class Case:
         self.http = 0
         self.w = None
         self.rootcap = None
-        self.caps = {}           # grid path -> cap used as a bare argument
-        self.isdir = {}
-        self.immcap = {}         # cap of an immutable file -> content id (an immutable cap determines the contents)
-        self.mut = {}            # storage index -> o
+        self.caps, self.isdir, self.immcap, self.mut = {}, {}, {}, {}
         self.content = {}        # bytes -> content id
         self.newmut = 0
 
@@ -112,38 +175,16 @@ class Case:
                     f.write(content_bytes(e["c"]))
 
     def req(self, method, path, body=None):
-        r = self.w.request(method, path, body=body)
-        return r
-
-    def must(self, r, what):
-        if r.code not in (200, 201):
-            raise RuntimeError("setup: %s -> %d %r" % (what, r.code, r.body[:200]))
-        return r.body.decode().strip()
+        return self.w.request(method, path, body=body)
 
     def build_grid(self):
-        self.w = WebGrid(num_servers=2, k=1, n=2, happy=1, max_segment_size=64, seed=0)
-        # the grid's pre-generated RSA keys instead of a fresh 2048-bit key per mutable object
-        self.w.client._key_generator = self.w.g.keypool
-        self.w.client.nodemaker.key_generator = self.w.g.keypool
-        self.rootcap = self.must(self.req("POST", "/uri?t=mkdir"), "mkdir root")
-        base = "/uri/" + quote(self.rootcap)
-        self.caps = {"": self.rootcap}
-        for e in sorted(self.world["G0"], key=lambda e: e["p"].count("/")):
-            url = base + "/" + "/".join(quote(n) for n in names_of(e["p"]))
-            if e["k"] == "dir":
-                cap = self.must(self.req("POST", url + "?t=mkdir"), "mkdir " + e["p"])
-            elif e["mu"]:
-                fmt = "MDMF" if e["o"].endswith("2") else "SDMF"
-                cap = self.must(self.req("PUT", url + "?format=" + fmt, content_bytes(e["c"])), "put mutable " + e["p"])
-                u = uri_mod.from_string(cap.encode())
-                self.mut[u.get_storage_index()] = e["o"]
-                self.content[u.get_readonly().to_string()] = "cap:" + e["o"]
-            else:
-                cap = self.must(self.req("PUT", url, content_bytes(e["c"])), "put " + e["p"])
-                self.content[cap.encode()] = "cap:" + e["c"]
-                self.immcap[cap] = e["c"]
-            self.caps[e["p"]] = cap
-            self.isdir[e["p"]] = e["k"] == "dir"
+        if self.wname not in GRIDS:
+            GRIDS[self.wname] = GridBase(self.world)
+        gb = GRIDS[self.wname]
+        self.w = gb.fresh()
+        self.rootcap, self.caps, self.isdir = gb.rootcap, gb.caps, gb.isdir
+        self.immcap, self.mut = dict(gb.immcap), dict(gb.mut)
+        self.content.update(gb.content)
 
     # ------------------------------------------------------------------ observation
     def abstract_content(self, data):
@@ -299,11 +340,6 @@ class Case:
         return s.replace(self.root, "$ROOT").replace(self.rootcap or "\0", "$ROOTCAP")
 
     def close(self):
-        if self.w is not None:
-            try:
-                self.w.close()
-            except Exception:
-                pass
         shutil.rmtree(self.base, ignore_errors=True)
 
 
@@ -311,7 +347,7 @@ WORLDS, BASE = {}, None
 
 
 def work(case):
-    k = Case(BASE, WORLDS[case["world"]], case)
+    k = Case(BASE, case["world"], WORLDS[case["world"]], case)
     try:
         return case["id"], k.run()
     except Exception:
